@@ -2,6 +2,7 @@ import Driver.Util
 import Driver.C13
 import Driver.C14
 import Driver.C12
+import Driver.PubProps
 open Lean
 
 def dispatch (p : String) (inp obs : Json) : Drv.Res :=
@@ -9,6 +10,7 @@ def dispatch (p : String) (inp obs : Json) : Drv.Res :=
   | "C13" => Drv.c13 inp obs
   | "C14" => Drv.c14 inp obs
   | "C12" => Drv.c12 inp obs
+  | "PUB" => Drv.pubGeneric p inp obs
   | _ => { agree := false, specOk := false, why := s!"unknown property {p}" }
 
 def handleLine (line : String) : String :=
